@@ -1,55 +1,158 @@
-"""C06: regenerate coq/Generated/SelectFacts.v from the repository's source.
+"""C06: regenerate coq/Generated/SelectFacts.v from the repository.
 
-The facts come from harness/cmd/extract-c06 (go/ast) and concern the explicit
-input selection of wallet.(*Wallet).txToOutputs (wallet/createtx.go, the loop
-over the caller's `selectedUtxos`):
+Two facts about the explicit input selection of wallet.(*Wallet).txToOutputs
+(the loop over the caller's selected outpoints, wallet/createtx.go):
 
   * explicit_selection_requires_eligible: every selected outpoint is looked up
     in the map built from findEligibleOutputs' result and a miss returns an
-    error (the extractor refuses any other shape, so this is `true` whenever
-    the file is regenerated at all);
+    error (used by C06_explicit_selection_used_as_given,
+    C06_ineligible_explicit_input_refused,
+    C06_spent_or_leased_explicit_input_refused);
   * explicit_selection_rejects_duplicates: a second occurrence of the same
-    outpoint in the selection returns an error (S8 of DESIGN.md section 6:
-    absent at the pinned commit).
+    outpoint in the selection returns an error (S8 of DESIGN.md section 6;
+    used by C06_no_output_twice_explicit).
 
-The extractor refuses shapes it does not understand; that is turned into an
-exception here so that the check reports a broken obligation instead of
-keeping an old file."""
-import json, os, subprocess
+Each fact is determined on one of two paths:
+
+  source  (primary) harness/cmd/extract-c06 reads the package wallet (go/ast):
+          the loop in txToOutputs itself or in a helper of the same package it
+          hands the selection to (followed through the call, depth <= 3), any
+          local names, `e, ok := M[K]` / `if e, ok := M[K]; !ok`, seen sets as
+          map[OutPoint]struct{} or map[OutPoint]bool, delete-from-map.  A
+          shape that is not understood is refused per fact, never guessed.
+
+  probe   (fallback, only for a fact whose shape was refused) harness/cmd/c06
+          is built against `repo` (harness module, tag verif) and run with
+          -probe: the witness scenarios of C06_refuted_duplicate_selection and
+          C06_refuted_ineligible_selection on real wallets - an explicit
+          selection naming an outpoint twice / naming a locked, leased,
+          foreign, spent, unconfirmed or unknown outpoint next to a good one,
+          through CreateSimpleTx(WithCustomSelectUtxos), SendOutputsWithInput
+          and FundPsbt(WithCustomSelectUtxos), each with its control (the same
+          selection without the offending outpoint is accepted).  "Refused" is
+          judged by behaviour - an error AND no transaction created, recorded
+          or sent - never by the text of the error.  true iff every instance is
+          refused; false iff every instance yields a transaction; anything
+          mixed is neither instance of the model: the probe fails.
+
+The Generated file says which path produced the facts
+(`(* facts source: source | probe ... *)`); lib/c06.py copies that into the
+evidence.  Only if BOTH paths fail for a fact does main() raise (the message
+carries both reasons), so that the check reports a broken obligation instead
+of silently keeping an old file."""
+import hashlib, json, os, re, shutil, subprocess
 
 import vlib
 
 
-def extract(repo):
+class ExtractError(Exception):
+    pass
+
+
+FACTS = ("requires_eligible", "rejects_duplicates")
+
+
+def sanitize(msg):
+    return re.sub(r"\s+", " ", msg or "").replace("(*", "( *").replace("*)", "* )")
+
+
+def source_facts(repo):
+    if os.environ.get("VERIF_C06_FORCE_PROBE"):
+        raise ExtractError("source reader skipped (VERIF_C06_FORCE_PROBE)")
     with vlib.Lock("go"):
         p = subprocess.run(["go", "run", "./cmd/extract-c06", repo], cwd=vlib.HARNESS, env=vlib.GOENV,
                            stdout=subprocess.PIPE, stderr=subprocess.PIPE, text=True, timeout=280)
     if p.returncode != 0:
-        raise RuntimeError("extract-c06 failed on %s (rc=%d): %s" % (repo, p.returncode, p.stderr.strip()[-2000:]))
+        raise ExtractError("extract-c06 failed on %s (rc=%d): %s" % (repo, p.returncode, p.stderr.strip()[-1500:]))
     return json.loads(p.stdout)
 
 
-def render(res):
-    b = lambda x: "true" if x else "false"
-    return """(* GENERATED by lib/extract_c06.py (harness/cmd/extract-c06, go/ast) from the
-   repository's wallet/createtx.go.  Do not edit; bin/extract rewrites it.
+def probe_facts(repo):
+    with vlib.Lock("go"):
+        os.makedirs(os.path.join(vlib.WORK, "bin"), exist_ok=True)
+        modflag = []
+        if repo == "/repo":
+            shutil.copyfile(os.path.join(repo, "go.sum"), os.path.join(vlib.HARNESS, "go.sum"))
+        else:
+            alt = os.path.join(vlib.WORK, "probe_c06_%s.mod" % hashlib.sha1(repo.encode()).hexdigest()[:8])
+            txt = open(os.path.join(vlib.HARNESS, "go.mod")).read().replace("=> /repo", "=> " + repo)
+            open(alt, "w").write(txt)
+            shutil.copyfile(os.path.join(repo, "go.sum"), alt[:-4] + ".sum")
+            modflag = ["-modfile=" + alt]
+        exe = os.path.join(vlib.WORK, "bin", "probe-c06")
+        p = subprocess.run(["go", "build"] + modflag + ["-tags", "verif", "-o", exe, "./cmd/c06"], cwd=vlib.HARNESS,
+                           env=vlib.GOENV, stdout=subprocess.PIPE, stderr=subprocess.PIPE, text=True, timeout=900)
+        if p.returncode != 0:
+            raise ExtractError("probe: harness/cmd/c06 does not build against %s: %s" % (repo, (p.stdout + p.stderr)[-1500:]))
+    env = dict(vlib.GOENV)
+    if os.path.isdir("/dev/shm"):
+        env["TMPDIR"] = "/dev/shm"
+    p = subprocess.run([exe, "-probe"], cwd=vlib.WORK, env=env, stdout=subprocess.PIPE, stderr=subprocess.PIPE,
+                       text=True, timeout=300)
+    if p.returncode != 0:
+        raise ExtractError("probe: c06 -probe failed: %s" % p.stderr.strip()[-1500:])
+    return json.loads(p.stdout.strip().splitlines()[-1])
 
-   Facts about the explicit input selection of Wallet.txToOutputs, the loop
-   `for _, outpoint := range selectedUtxos` (%s).
+
+def facts(repo):
+    """returns dict(requires_eligible, rejects_duplicates, why_*, source_line, info)"""
+    src_err = None
+    try:
+        s = source_facts(repo)
+    except (ExtractError, OSError, ValueError, subprocess.SubprocessError) as e:
+        s, src_err = {}, str(e)
+    rel = lambda m: (m or "").replace(repo.rstrip("/") + "/", "")      # noqa: E731
+    out = dict(info=s)
+    need = []
+    for f in FACTS:
+        d = s.get(f) or {}
+        if d.get("ok"):
+            out[f], out["why_" + f] = bool(d["value"]), d.get("why", "")
+        else:
+            need.append((f, rel(d.get("why") or src_err or "no answer")))
+    if not need:
+        out["source_line"] = "source (shape of the explicit selection loop recognised: %s, %s)" % (
+            s.get("func", "?"), s.get("loop", "?"))
+        return out
+    try:
+        resp = probe_facts(repo)
+        for f, _ in need:
+            d = resp.get(f) or {}
+            if not d.get("ok"):
+                raise ExtractError("%s: %s" % (f, d.get("why") or "no answer"))
+            out[f], out["why_" + f] = bool(d["value"]), "probe: " + d.get("why", "")
+    except (ExtractError, OSError, ValueError, KeyError, IndexError, subprocess.SubprocessError) as e2:
+        raise ExtractError("source shape not recognised (%s) AND probing the built code failed (%s)" % (
+            "; ".join("%s: %s" % n for n in need), e2))
+    out["source_line"] = "probe (%s; determined by %d wallet scenarios run on the code built from the repository, harness/cmd/c06 -probe)" % (
+        "; ".join("%s - source shape not recognised: %s" % (n, sanitize(w)[:300]) for n, w in need), resp.get("scenarios", 0))
+    return out
+
+
+def render(f):
+    b = lambda x: "true" if x else "false"      # noqa: E731
+    info = f.get("info") or {}
+    return """(* GENERATED by lib/extract_c06.py (harness/cmd/extract-c06, go/ast; fallback harness/cmd/c06 -probe)
+   from the repository's package wallet (createtx.go).  Do not edit; bin/extract rewrites it. *)
+(* facts source: %s *)
+
+(* Facts about the explicit input selection of Wallet.txToOutputs, the loop over
+   the caller's selected outpoints (%s, %s).
    Eligibility map: %s.  Recognised duplicate test: %s. *)
 
 (* every selected outpoint must be a key of the map built from
-   findEligibleOutputs' result; a miss returns an error *)
+   findEligibleOutputs' result; a miss returns an error
+   (%s) *)
 Definition explicit_selection_requires_eligible : bool := %s.
 
-(* a second occurrence of an outpoint in the selection returns an error *)
+(* a second occurrence of an outpoint in the selection returns an error
+   (%s) *)
 Definition explicit_selection_rejects_duplicates : bool := %s.
-""" % (os.path.join("wallet", "createtx.go") + ":" + res["loop"].split(":", 1)[1] if ":" in res["loop"] else res["loop"],
-       res["map"], res["form"], b(res["requires_eligible"]), b(res["rejects_duplicates"]))
+""" % (sanitize(f["source_line"]), sanitize(info.get("func") or "?"), sanitize(info.get("loop") or "?"),
+       sanitize(info.get("map") or "?"), sanitize(info.get("form") or "?"),
+       sanitize(f["why_requires_eligible"]), b(f["requires_eligible"]),
+       sanitize(f["why_rejects_duplicates"]), b(f["rejects_duplicates"]))
 
 
 def main(repo, outdir, write_if_changed):
-    res = extract(repo)
-    if not res.get("requires_eligible"):
-        raise RuntimeError("extract-c06: explicit selection does not refuse ineligible outpoints: %r" % res)
-    write_if_changed(os.path.join(outdir, "SelectFacts.v"), render(res))
+    write_if_changed(os.path.join(outdir, "SelectFacts.v"), render(facts(repo)))
